@@ -282,10 +282,18 @@ class CSSCapture:
         msg = 'parsed'
         if saveraw:
             msg = 'raw'
+        oldser = cssutils.ser
         if minified:
+            # for this call only (as csscombine does)
+            cssutils.setSerializer(cssutils.serialize.CSSSerializer())
             cssutils.ser.prefs.useMinified()
             msg = 'minified'
+        try:
+            self._saveto(dir, saveraw, msg)
+        finally:
+            cssutils.setSerializer(oldser)
 
+    def _saveto(self, dir, saveraw, msg):
         inlines = 0
         for i, sheet in enumerate(self.stylesheetlist):
             url = sheet.href
